@@ -205,6 +205,22 @@ impl Compiler {
 
     /// Compiles the given AST into executable Bytecode
     pub fn compile_ast(&mut self, ast: &BlockStmt) -> Result<Bytecode, Error> {
+        let checkpoint = self.symbols.checkpoint();
+        let result = self.compile_program(ast);
+
+        // A program that failed to compile leaves nothing behind for the next one:
+        // no half-finished code, no entered scopes or loops, no declarations
+        if result.is_err() {
+            self.instructions.clear();
+            self.last_instruction = None;
+            self.loop_contexts.clear();
+            self.symbols.rollback(checkpoint);
+        }
+
+        result
+    }
+
+    fn compile_program(&mut self, ast: &BlockStmt) -> Result<Bytecode, Error> {
         // Call compile_statement on each child node directly
         // We don't re-use compile_block_statement here because it exits the global scope
         for s in ast {
